@@ -2311,6 +2311,8 @@ def _hasattr(interp, args, kwargs):
             return True
         except Undecided:
             return False
+    if isinstance(name, str) and (value is None or isinstance(value, (bool, int, float, str, bytes, tuple, frozenset, type(compile("0", "<x>", "eval"))))):
+        return hasattr(value, name)  # immutable native values: the real answer
     raise Undecided("hasattr on %r" % (value,))
 
 
